@@ -596,6 +596,9 @@ func main() {
 		r.Extra("keys_with_sampled_padding_positions", sampled)
 		r.Sample(map[string]any{"family": "byte-replaced", "note": "EM = 00 01 FF..FF 00 DigestInfo digest with one byte XORed; signature = EM^d mod N; expected: reject"})
 		r.Sample(map[string]any{"family": "correct", "hashes": []string{"SHA1", "SHA256", "SHA384", "SHA512"}, "forms": []string{"with NULL", "without NULL"}, "expected": "accept"})
+		if r.Replay == nil {
+			ring.Stress(r, r.CaseAlways("stress", 0), 8, 2)
+		}
 		r.Floor(int64(r.Pick(15000, 100000)), 5000)
 	})
 }
